@@ -399,7 +399,10 @@ class C02(Property):
             "limits, repeated requests; in half of the steps preceded by check_options, whose verdict is checked against "
             "the Lean spec `optionsOk`), every ruleset read when returned and again after the last call, checked "
             "against the Lean spec `wanted` (shipped rules restricted and scaled once); Ruleset.from_files with "
-            "multipliers; `layout`: written words (keywords, identifiers, numbers, symbols, tokens of generated files) with "
+            "multipliers; `continuations`: a base parsed once and its rule list object handed as existing_rules to 2-4 "
+            "follow-up Parser(...) calls (branching from the base or from a continuation, referring to / redefining rules "
+            "only another branch defined), every list read when returned and after the last parse, each outcome "
+            "checked against the text parsed after the value of the list it was given; `layout`: written words (keywords, identifiers, numbers, symbols, tokens of generated files) with "
             "arbitrary gaps of whitespace characters and #-comments, incl. a comment as the only separator (abutting the "
             "word before it, next word in column 0) and an unterminated tail comment, re-rendered by the Lean spec and "
             "checked against `tokenise_layout`'s right-hand side.  non-trivial = an accepted file with a condition of "
@@ -631,6 +634,36 @@ class C02(Property):
             if words:
                 yield self.layout_case(rng, words)
 
+    # continuations: one base parsed once, its rule list handed as existing_rules to several follow-up parses
+    def continuation_cases(self, rng: random.Random, count: int) -> Iterator[Dict[str, Any]]:
+        head = "RULE {} CATEGORY cat {}CUTOFF 10 NEIGHBOURHOOD 10 CONDITIONS {}\n"
+        # the smallest sequence: base, base + extra, base + a rule below extra (must be rejected)
+        yield {"kind": "continuations", "sigs": PROFILES, "cats": CATEGORIES, "cmul": [1, 1], "nmul": [1, 1], "steps": [
+            {"from": None, "text": head.format("base", "", "a")},
+            {"from": 0, "text": head.format("extra", "", "b")},
+            {"from": 0, "text": head.format("other", "SUPERIORS extra ", "c")}]}
+        for _ in range(count):
+            gen = Gen(rng)
+            names = rng.sample(RULE_NAMES, min(len(RULE_NAMES), 6))
+            base_names = names[:rng.choice([1, 2, 3])]
+            specs: List[Dict[str, Any]] = []
+            for nm in base_names:
+                specs.append(gen.rule(nm, [s["name"] for s in specs]))
+            steps: List[Dict[str, Any]] = [{"from": None, "text": "".join(gen.render(gen.rule_tokens(sp)) + "\n" for sp in specs)}]
+            defined = {0: list(base_names)}
+            fresh = names[len(base_names):]
+            for k in range(1, rng.choice([3, 3, 4, 5])):
+                src = rng.choice(list(defined))                     # continue from the base or from a continuation
+                known = defined[src]
+                elsewhere = [n for q, ns in defined.items() if q != src for n in ns if n not in known]
+                nm = rng.choice(fresh + elsewhere) if elsewhere and rng.random() < 0.4 else rng.choice(fresh)
+                spec = gen.rule(nm, known)
+                if elsewhere and rng.random() < 0.5:                # refer to a rule only another branch defined
+                    spec["superiors"] = (spec["superiors"] + [rng.choice(elsewhere)])[-2:]
+                steps.append({"from": src, "text": gen.render(gen.rule_tokens(spec)) + "\n"})
+                defined[k] = known + [nm]
+            yield {"kind": "continuations", "sigs": PROFILES, "cats": CATEGORIES, "cmul": [1, 1], "nmul": [1, 1], "steps": steps}
+
     # rulesets: sequences of get_ruleset() calls within one process, and Ruleset.from_files
     MULT_VALUES = [0.5, 1.0, 1.0, 1.5, 2.0, 0.25, 3.0, 1.25, None, None]
     SOME_RULES = ["T1PKS", "NRPS", "terpene", "lanthipeptide-class-i", "T3PKS", "NRPS-like", "siderophore",
@@ -681,6 +714,7 @@ class C02(Property):
     def cases(self, rng: random.Random, tier: str, deep: bool) -> Iterator[Dict[str, Any]]:
         yield from self.ruleset_cases(rng, 150 if tier == "thorough" else 40 if deep else 12)
         yield from self.from_files_cases(rng, 12 if deep else 4)
+        yield from self.continuation_cases(rng, 3000 if tier == "thorough" else 600 if deep else 120)
         yield from self.layout_cases(rng, 20000 if tier == "thorough" else 4000 if deep else 400)
         for level in ("strict", "relaxed", "loose"):
             yield {"kind": "parse", "shipped": level, "via": "create", "cmul": [1, 1], "nmul": [1, 1]}
@@ -764,6 +798,8 @@ class C02(Property):
             return self._run_rulesets(case)
         if case["kind"] == "from_files":
             return self._run_from_files(case)
+        if case["kind"] == "continuations":
+            return self._run_continuations(case)
         mult = Multipliers(case["cmul"][0] / case["cmul"][1], case["nmul"][0] / case["nmul"][1])
         old = signal.signal(signal.SIGALRM, _alarm)
         signal.setitimer(signal.ITIMER_REAL, 10.0)
@@ -861,6 +897,46 @@ class C02(Property):
             hd._RULESETS.clear()  # pylint: disable=protected-access
         return {"steps": steps, "final": final, "reqs": reqs}
 
+    @staticmethod
+    def _cont_rows(rules: Any) -> List[List[Any]]:
+        return [[r.name, r.category, int(r.cutoff), int(r.neighbourhood), list(r.superiors), str(r.conditions)] for r in rules]
+
+    def _run_continuations(self, case: Dict[str, Any]) -> Dict[str, Any]:
+        """several Parser(...) calls in one process; a step hands the very list object an earlier step returned as
+        existing_rules; every list is read when it is returned and again after the last step"""
+        from antismash.common.hmm_rule_parser import rule_parser as rp
+        sigs, cats = set(case["sigs"]), set(case["cats"])
+        lists: List[Any] = []
+        steps: List[Any] = []
+        old = signal.signal(signal.SIGALRM, _alarm)
+        signal.setitimer(signal.ITIMER_REAL, 20.0)
+        try:
+            for step in case["steps"]:
+                src = step["from"]
+                if src is not None and lists[src] is None:
+                    lists.append(None)
+                    steps.append(None)
+                    continue
+                try:
+                    if src is None:
+                        rules = rp.Parser(step["text"], sigs, cats).rules
+                    else:
+                        rules = rp.Parser(step["text"], sigs, cats, existing_rules=lists[src]).rules
+                except Timeout:
+                    raise
+                except Exception as exc:  # pylint: disable=broad-except
+                    lists.append(None)
+                    steps.append({"err": self._kind(exc)})
+                    continue
+                lists.append(rules)
+                steps.append({"rules": self._cont_rows(rules)})
+        except Timeout:
+            return {"steps": steps, "final": [], "err": "other:timeout"}
+        finally:
+            signal.setitimer(signal.ITIMER_REAL, 0)
+            signal.signal(signal.SIGALRM, old)
+        return {"steps": steps, "final": [self._cont_rows(l) if l is not None else None for l in lists]}
+
     def _run_from_files(self, case: Dict[str, Any]) -> Dict[str, Any]:
         from antismash.common.hmm_rule_parser.cluster_prediction import Ruleset
         from antismash.common.hmm_rule_parser.structures import Multipliers
@@ -878,6 +954,9 @@ class C02(Property):
     def driver_line(self, case: Dict[str, Any], obs: Dict[str, Any]) -> Optional[Dict[str, Any]]:
         if case["kind"] == "tokens":
             return {"kind": "tokens", "text": case["text"]}
+        if case["kind"] == "continuations":
+            return {"kind": "continuations", "sigs": case["sigs"], "cats": case["cats"], "cmul": case["cmul"],
+                    "nmul": case["nmul"], "steps": case["steps"]}
         if case["kind"] == "layout":
             return {"kind": "layout", "text": case["text"], "items": case["items"], "tail": case["tail"]}
         if case["kind"] == "rulesets":
@@ -923,6 +1002,32 @@ class C02(Property):
             abut = any(it["gap"] and "c" in it["gap"][0] for it in case["items"][1:])
             return Judgement(same, spec_ok, in_scope=bool(drv["scope"]), nontrivial=len(case["items"]) >= 2 and abut,
                              tags=("layout", "abutting-comment" if abut else "layout-plain"), detail=detail)
+        if case["kind"] == "continuations":
+            model, spec = drv["model"], drv["spec"]
+            corr = model["steps"] == obs["steps"] and model["final"] == obs["final"]
+            spec_ok, detail = True, ""
+            for i, (got, want) in enumerate(zip(obs["steps"], spec["steps"])):
+                if got is not None and want is not None and got != want:
+                    spec_ok = False
+                    src = case["steps"][i]["from"]
+                    detail = (f"parse {i + 1} (text {case['steps'][i]['text']!r} after the rules returned by parse "
+                              f"{None if src is None else src + 1}) gave {self._brief(got)}, but that text after those rules "
+                              f"gives {self._brief(want)}: the outcome depends on what other parses did with the same list")
+                    break
+            if spec_ok:
+                for i, (then, now) in enumerate(zip(obs["steps"], obs["final"])):
+                    if then is not None and "rules" in then and now != then["rules"]:
+                        spec_ok = False
+                        detail = (f"the rule list returned by parse {i + 1} changed after later parses: was "
+                                  f"{[r[0] for r in then['rules']]}, now {[r[0] for r in (now or [])]}")
+                        break
+            if obs.get("err"):
+                spec_ok, detail = False, "continuations: " + obs["err"]
+            if not corr and not detail:
+                detail = f"continuations: model {str(model)[:300]} vs implementation {str(obs)[:300]}"
+            branching = len({s["from"] for s in case["steps"][1:]}) < len(case["steps"][1:])
+            return Judgement(corr, spec_ok, nontrivial=branching and len(case["steps"]) >= 3,
+                             tags=("continuations", "branching" if branching else "chain"), detail=detail)
         if case["kind"] == "rulesets":
             return self._judge_rulesets(case, obs, drv)
         if case["kind"] == "from_files":
@@ -1040,6 +1145,10 @@ class C02(Property):
         return Judgement(corr, spec_ok, nontrivial=nontrivial, tags=tuple(tags), detail=detail)
 
     @staticmethod
+    def _brief(out: Dict[str, Any]) -> str:
+        return f"error {out['err']}" if "err" in out else f"rules {[(r[0], r[4]) for r in out['rules']]}"
+
+    @staticmethod
     def _first_diff(model: List[Dict[str, Any]], impl: List[Dict[str, Any]]) -> str:
         if len(model) != len(impl):
             return f"{len(model)} rules in the model, {len(impl)} in the implementation"
@@ -1061,6 +1170,14 @@ class C02(Property):
             text = case["text"]
             for i in range(len(text)):
                 yield dict(case, text=text[:i] + text[i + 1:])
+            return
+        if case["kind"] == "continuations":
+            steps = case["steps"]
+            for i in range(len(steps) - 1, 0, -1):
+                if not any(s["from"] == i for s in steps):     # drop a step nobody continues from
+                    new = [dict(s, **{"from": s["from"] - 1 if s["from"] is not None and s["from"] > i else s["from"]})
+                           for k, s in enumerate(steps) if k != i]
+                    yield dict(case, steps=new)
             return
         if case["kind"] == "layout":
             items, tail = case["items"], case["tail"]
